@@ -5,7 +5,7 @@ set -u
 cmd=$1; shift
 case $cmd in
 verify)
-  id=$1; x=$2; y=${3:-$2}; wt=/tmp/seed/$id; sd=$wt/seed/$x
+  id=$1; x=$2; y=${3:-$2}; wt=/tmp/seed/$id; sd=$wt/seed/$x; mkdir -p /tmp/seed
   cd $wt || exit 2
   git checkout -q -- . ; 
   echo "== clean tree demo"; (bash $sd/run.sh >/tmp/seed/$id-$x-clean.log 2>&1); rc_clean=$?
